@@ -168,6 +168,15 @@ Definition is_flag_call (c : mcall) : bool := match c with MSetLast _ => false |
 (* the effect of the call on the flag half alone *)
 Definition flag_fn (c : mcall) (w : Z) : Z := match c with MSetLast _ => w | _ => mcall_fn c w end.
 
+(* the flag calls alone, and the group left by the last SetLast, in the given order *)
+Definition apply_flag_calls (cs : list mcall) (order : list nat) (w0 : Z) : Z :=
+  fold_left (fun w i => match nth_error cs i with Some c => flag_fn c w | None => w end) order w0.
+Definition last_group (cs : list mcall) (order : list nat) (g0 : Z) : Z :=
+  fold_left (fun g i => match nth_error cs i with Some (MSetLast g') => g' | _ => g end) order g0.
+
+(* every thread in turn, two scheduling slots each (load, compare-and-swap) *)
+Definition serial_sched (n : nat) : list nat := flat_map (fun i => [i; i]) (seq 0 n).
+
 (* ---- the lost-update witness -------------------------------------------------- *)
 (* two threads; thread 0 executes its first atomic call, thread 1 runs to completion, thread 0
    executes the rest: [T0.load; T1.load; T1.store; T0.store] for load-then-store mutators.  The
